@@ -95,10 +95,12 @@ def oracle(s, r):
 
 def cases_for(tier):
     if tier == "thorough":
-        return ol.lattice([5, 6, 7, 8, 9, 11, 13, 17], [4, 8, 12, 16, 20, 24, 32], "geo,A11,X", tier,
+        return ol.lattice([4, 5, 6, 7, 8, 9, 11, 13, 17], [4, 8, 12, 16, 20, 24, 32], "geo,A11,X", tier,
                           cycle_offsets=(0, 1, 2), extra={"tlist": "1,3"}) + \
             ol.full_block([5, 7, 8], [4, 8, 12], "geo,A11,X", tier, extra={"tlist": "1,3"})
-    return ol.lattice([5, 6, 7, 8, 9, 11], [4, 8, 12, 16], "geo,A11,X", tier, cycle_offsets=(0, 1), extra={"tlist": "1,3"})
+    # nr = 4: smaller than any grid the solver hands to its coarse solver (it never coarsens below 5 radii), but legal grids and legal
+    # input for the direct-solver classes: every interior node is next to a boundary
+    return ol.lattice([4, 5, 6, 7, 8, 9, 11], [4, 8, 12, 16], "geo,A11,X", tier, cycle_offsets=(0, 1), extra={"tlist": "1,3"})
 
 
 def main(tier):
